@@ -1,5 +1,5 @@
 (* C11 — boolean comparison of the model with observations of the implementation (used by K only). *)
-From Coq Require Import List Arith Bool ZArith QArith PrimFloat.
+From Coq Require Import List Arith Bool ZArith QArith Qabs PrimFloat FloatOps SpecFloat.
 Import ListNotations.
 From AgileV Require Import C11.Model C11.Strict.
 Local Open Scope nat_scope.
@@ -67,8 +67,34 @@ Definition feqb (a b : float) : bool := PrimFloat.eqb a b.
 Definition fclose32 (m o : float) : bool :=
   PrimFloat.leb (PrimFloat.abs (PrimFloat.sub m o)) (PrimFloat.mul (PrimFloat.abs m) 0x1p-23%float).
 
-Definition check_float (strict : bool) (m : nat) (tabA tabB : list (float * float))
+(* ---- the tables of x ** alpha and x ** -beta handed over by the harness (computed by CPython) are certified
+   here against the algebraic definition of a rational power: for alpha = a/b the entry (x, v) must satisfy
+   |v^b - x^a| <= x^a * 2^-40 (resp. |v^b * x^a - 1| <= 2^-40 for the exponent -a/b), in exact arithmetic ---- *)
+Definition float_to_Q (f : float) : option Q :=
+  match Prim2SF f with
+  | S754_zero _ => Some 0%Q
+  | S754_finite s m e => let q := (inject_Z (Zpos m) * Qpower 2 e)%Q in Some (if s then Qopp q else q)
+  | _ => None
+  end.
+Definition pow_tol : Q := (1 # 1099511627776)%Q.
+Definition pow_entry_ok (a : Z) (b : positive) (neg : bool) (xv : float * float) : bool :=
+  match float_to_Q (fst xv), float_to_Q (snd xv) with
+  | Some qx, Some qv =>
+      let xa := Qpower qx a in let vb := Qpower qv (Zpos b) in
+      Qle_bool 0 qv &&
+      if neg then Qle_bool (Qabs (vb * xa - 1)) pow_tol
+      else Qle_bool (Qabs (vb - xa)) (xa * pow_tol)
+  | _, _ => false
+  end.
+Definition pow_tab_ok (e : option (Z * positive)) (neg : bool) (tab : list (float * float)) : bool :=
+  match e with
+  | Some (a, b) => forallb (pow_entry_ok a b neg) tab
+  | None => true                    (* exponent not a small rational: table taken on trust *)
+  end.
+
+Definition check_float (strict : bool) (m : nat) (ea eb : option (Z * positive)) (tabA tabB : list (float * float))
            (ops : list (@pop FC)) (obs : list (obs1 FC)) : bool :=
+  pow_tab_ok ea false tabA && pow_tab_ok eb true tabB &&
   check_trace FC (tab_pow tabA) (tab_pow tabB) feqb fclose32 strict (per_init FC m) ops obs.
 
 (* ---- exact instance (alpha = 1, weights not compared) ---- *)
